@@ -27,6 +27,7 @@ WATCH = set()
 SHARED = {}
 FILTER = False
 STUDENT_FILE = 'answer.py'
+STUDENT_FILES = {'answer.py', 'helper.py'}      # the student's main file and a second file of the submission it may import
 
 
 class Abort(BaseException):
@@ -50,9 +51,11 @@ class Scheduler:
         self.started = {}
         self.blocked_forever = set()
         self.pending = {}
-        self.waiting_join = None     # name of the thread G joins on, while it waits
-        self.join_timed = True       # False: join() without a duration (no timer can fire)
-        self.join_steps = 0
+        # who waits in join() on whom: joiner -> {'target', 'timed', 'steps'}; the grader waits on the runner, and a
+        # runner importing another student file under a time limit waits on that import's own thread
+        self.waits = {}
+        self.marked_stopped = set()      # threads CPython believes stopped (see join_wrap)
+        self.inner_timer_fired = False
         self.k_join = k_join
         self.timer_fired = False
         self.log = []
@@ -73,9 +76,31 @@ class Scheduler:
 
     # -- helpers ------------------------------------------------------------------------
     def runnable(self, n):
+        if n in self.waits:
+            return False
         if n == 'G':
-            return self.alive['G'] and self.waiting_join is None
+            return self.alive['G']
         return self.started.get(n) and self.alive.get(n) and n not in self.blocked_forever
+
+    def waiters_on(self, me):
+        """The chain of joiners whose (timed) wait can end while `me` runs: who waits on me, who waits on them, ..."""
+        chain, cur = [], me
+        while True:
+            j = next((j for j, w in self.waits.items() if w['target'] == cur), None)
+            if j is None:
+                return chain
+            chain.append(j)
+            cur = j
+
+    def fire(self, me, joiner, where):
+        """The time limit of `joiner`'s join() is over: it runs next."""
+        if joiner == 'G':
+            self.timer_fired = True
+        else:
+            self.inner_timer_fired = True
+        self.waits.pop(joiner, None)
+        self.log.append(('timer fires', where) if joiner == 'G' else ('timer of', joiner, 'fires', where))
+        self.switch(me, joiner)
 
     def others(self, me):
         return [n for n in self.alive if n != me and self.runnable(n)]
@@ -102,29 +127,41 @@ class Scheduler:
             self.log.append(('step horizon reached', where))
             raise StepHorizon('the grader thread is still running after %d scheduling steps' % self.step_limit)
         ctx = self.ctx
+        chain = self.waiters_on(me) if (me != 'G' and self.waits) else []
+        timed = [j for j in chain if self.waits[j]['timed']]
         if self.draining:
-            # the grader is done: abandoned threads run alone, up to a horizon
+            # the grader is done: abandoned threads run alone, up to a horizon (a runner still waiting for its
+            # import's thread is woken when that wait's time is over)
             if me != 'G':
                 self.drain_steps += 1
                 if self.drain_steps > self.drain_limit:
                     self.drain_exhausted = True
                     self.log.append(('drain horizon reached', me))
                     raise Abort()
-        elif me != 'G' and self.waiting_join == me and not self.join_timed:
-            pass       # the grader waits without a time limit: the student simply continues
-        elif me != 'G' and self.waiting_join == me:
-            # the grader waits in join(): the student continues, or the timer fires now
-            self.join_steps += 1
-            if self.join_steps > self.k_join:
-                fire = True
+                if timed:
+                    w = self.waits[timed[0]]
+                    w['steps'] += 1
+                    if w['steps'] > self.k_join or ctx.choose(2, 'timer(%s)@%s:%s' % ((timed[0],) + where), costs=(0, 0)):
+                        self.fire(me, timed[0], where)
+        elif me != 'G' and chain and not timed:
+            pass       # waited for without a time limit: the thread simply continues
+        elif me != 'G' and timed:
+            # somebody waits in join(duration): the thread continues, or one of the timers fires now
+            forced = None
+            for j in timed:
+                self.waits[j]['steps'] += 1
+                if forced is None and self.waits[j]['steps'] > self.k_join:
+                    forced = j
+            if forced is not None:
+                self.fire(me, forced, where)
+            elif len(timed) == 1:
+                if ctx.choose(2, 'timer@%s:%s' % where, costs=(0, 0)):
+                    self.fire(me, timed[0], where)
             else:
-                fire = bool(ctx.choose(2, 'timer@%s:%s' % where, costs=(0, 0)))
-            if fire:
-                self.timer_fired = True
-                self.waiting_join = None
-                self.log.append(('timer fires', where))
-                self.switch(me, 'G')
-        elif me != 'G' and where[0] == STUDENT_FILE and where in self.seen.setdefault(me, set()) and self.runnable('G'):
+                c = ctx.choose(1 + len(timed), 'timers@%s:%s' % where, costs=(0,) * (1 + len(timed)))
+                if c:
+                    self.fire(me, timed[c - 1], where)
+        elif me != 'G' and where[0] in STUDENT_FILES and where in self.seen.setdefault(me, set()) and self.runnable('G'):
             # a spinning student loop revisits a line: forced zero-cost yield (loom's rule)
             self.seen[me] = set()
             self.switch(me, 'G')
@@ -150,8 +187,8 @@ class Scheduler:
         self.log.append(('finished', me))
         if self.aborting:
             return
-        if self.waiting_join == me:
-            self.waiting_join = None
+        for j in [j for j, w in self.waits.items() if w['target'] == me]:
+            del self.waits[j]          # its join() returns
         # hand the baton to somebody runnable (the grader first)
         for n in ['G'] + [x for x in self.alive if x != 'G']:
             if n != me and self.runnable(n):
@@ -162,10 +199,13 @@ class Scheduler:
         """The student thread blocks in C forever (never scheduled again)."""
         self.log.append(('blocks forever', me))
         self.blocked_forever.add(me)
-        if self.waiting_join == me:
+        for j in [j for j, w in self.waits.items() if w['target'] == me]:
             # nothing can happen but the timer
-            self.timer_fired = True
-            self.waiting_join = None
+            if j == 'G':
+                self.timer_fired = True
+            else:
+                self.inner_timer_fired = True
+            del self.waits[j]
             self.log.append(('timer fires', 'student blocked'))
         nxt = [n for n in self.alive if n != me and self.runnable(n)]
         if not nxt:
@@ -270,7 +310,7 @@ def shared_lines(path):
 
 def _line_cb(code, line):
     fn = code.co_filename
-    if fn not in WATCH and fn != STUDENT_FILE:
+    if fn not in WATCH and fn not in STUDENT_FILES:
         return mon.DISABLE
     if FILTER and fn in SHARED and line not in SHARED[fn]:
         return mon.DISABLE
@@ -341,12 +381,14 @@ def install():
             if timeout is None:
                 raise Deadlock('join() without a time limit on a thread that is blocked forever')
             # student blocked forever: only the timer can end the wait
-            s.timer_fired = True
+            if (NAMES.get(threading.get_ident()) or 'G') == 'G':
+                s.timer_fired = True
+            else:
+                s.inner_timer_fired = True
             s.log.append(('timer fires', 'join on a blocked thread'))
             return
-        s.join_steps = 0
-        s.join_timed = timeout is not None
-        if s.join_timed:
+        joiner = NAMES.get(threading.get_ident()) or 'G'
+        if timeout is not None:
             # the timer may fire at once (0) or the student runs first (1): a free choice -- except that a
             # grader polling with timed waits must let the other thread run between two of them (fairness:
             # a real join(t) that times out twice in a row with a runnable student that never ran does not exist)
@@ -355,24 +397,41 @@ def install():
             else:
                 c = s.ctx.choose(2, 'join:timer-first|student-first', costs=(0, 0))
             if c == 0:
-                s.timer_fired = True
+                if joiner == 'G':
+                    s.timer_fired = True
+                else:
+                    s.inner_timer_fired = True
                 s.zero_join_at = s.student_steps
                 s.log.append(('timer fires', 'at once'))
                 return
-        s.waiting_join = name
+        s.waits[joiner] = {'target': name, 'timed': timeout is not None, 'steps': 0}
         s.seen[name] = set()
         s.sems[name].release()
-        s.sems['G'].acquire()
-        s.waiting_join = None
-        s.join_timed = True
+        s.sems[joiner].acquire()
+        s.waits.pop(joiner, None)
         s.log.append(('join returns', 'student alive' if s.alive[name] else 'student finished'))
+        if joiner != 'G':
+            if s.aborting:
+                raise Abort()
+            exc = s.pending.pop(joiner, None)
+            if exc is not None:
+                # an asynchronous exception set while this thread was waiting arrives as soon as it runs again, i.e.
+                # inside threading.Thread.join().  CPython (bpo-45274 work-around in _wait_for_tstate_lock, 3.9.8+)
+                # then finds the joined thread's state lock "locked", takes that for its own interrupted acquire,
+                # releases it and marks the *joined* thread as stopped although it is running: from now on
+                # is_alive() of that thread is False.  Observed with real threads on this interpreter (3.12.1).
+                if s.alive.get(name):
+                    s.marked_stopped.add(name)
+                    s.log.append(('CPython marks', name, 'as stopped (exception inside join)'))
+                s.log.append(('deliver', joiner, 'after join'))
+                raise exc
 
     def is_alive_wrap(self):
         s = CUR
         name = getattr(self, '_verif_name', None)
         if s is None or name is None:
             return _orig['is_alive'](self)
-        return bool(s.alive.get(name))
+        return bool(s.alive.get(name)) and name not in s.marked_stopped
 
     def async_raise(thread_id, exception):
         s = CUR
